@@ -613,6 +613,67 @@ theorem waiter_not_lost_run (m : Nat) (es : List Ev) : WInv (run (init m) es) :=
   | nil => exact h0
   | cons e r ih => exact ih _ (waiter_not_lost s e h0)
 
+/-! ### 6b. key names round-trip for ALL names -/
+open Rv.Lock.KeyName in
+private theorem splitFirst_append (d n : List Char) (hd : ∀ c ∈ d, c ≠ ':') :
+    splitFirst (d ++ ':' :: n) = some (d, n) := by
+  induction d with
+  | nil => simp [splitFirst]
+  | cons c r ih =>
+    have hc : c ≠ ':' := hd c (List.mem_cons_self ..)
+    have := ih (fun x hx => hd x (List.mem_cons_of_mem _ hx))
+    simp [splitFirst, hc, this]
+
+open Rv.Lock.KeyName in
+private theorem digits_ok (i : Nat) : (∀ c ∈ Nat.toDigits 10 i, c ≠ ':') ∧ allDigits (Nat.toDigits 10 i) = true ∧
+    (Nat.toDigits 10 i).head? ≠ some '-' ∧ (Nat.toDigits 10 i).head? ≠ some '+' := by
+  have hdig : ∀ c ∈ Nat.toDigits 10 i, c.isDigit = true :=
+    fun c hc => Nat.isDigit_of_mem_toDigits (by decide) (by decide) hc
+  have hne : Nat.toDigits 10 i ≠ [] := Nat.toDigits_ne_nil
+  refine ⟨fun c hc e => by have := hdig c hc; rw [e] at this; exact absurd this (by decide), ?_, ?_, ?_⟩
+  · simp only [allDigits, Bool.and_eq_true, Bool.not_eq_true', List.all_eq_true]
+    exact ⟨by cases h : Nat.toDigits 10 i <;> simp_all, hdig⟩
+  · intro h
+    cases hl : Nat.toDigits 10 i with
+    | nil => exact hne hl
+    | cons c r =>
+      rw [hl] at h; simp at h
+      have := hdig c (by rw [hl]; exact List.mem_cons_self ..)
+      rw [h] at this; exact absurd this (by decide)
+  · intro h
+    cases hl : Nat.toDigits 10 i with
+    | nil => exact hne hl
+    | cons c r =>
+      rw [hl] at h; simp at h
+      have := hdig c (by rw [hl]; exact List.mem_cons_self ..)
+      rw [h] at this; exact absurd this (by decide)
+
+/-- KEY NAMES: what onInvalidations parses out of the key `keyname` built is the index and the
+name again — for every prefix, every index and EVERY name, colons included. This is what
+`SplitN(…, ":", 2)` (split at the first colon only) provides and a full `Split` does not. -/
+theorem parseKey_keyname (p n : List Char) (i : Nat) :
+    KeyName.parseKey p (KeyName.keyname p i n) = .hit i n := by
+  obtain ⟨hcol, hall, hm, hp⟩ := digits_ok i
+  have hpre : p.isPrefixOf (KeyName.keyname p i n) = true := by
+    simp [KeyName.keyname, List.isPrefixOf_iff_prefix]
+  have hlen : ¬ (KeyName.keyname p i n).length < p.length + 1 := by
+    simp [KeyName.keyname]
+  have hdrop : (KeyName.keyname p i n).drop (p.length + 1) = Nat.toDigits 10 i ++ ':' :: n := by
+    have : KeyName.keyname p i n = (p ++ [':']) ++ (Nat.toDigits 10 i ++ ':' :: n) := by simp [KeyName.keyname]
+    rw [this, List.drop_left' (by simp)]
+  have hat : KeyName.atoi (Nat.toDigits 10 i) = (i : Int) := by
+    simp only [KeyName.atoi, if_neg hm, if_neg hp, hall, if_true, Nat.ofDigitChars_ten_toDigits]
+  simp only [KeyName.parseKey, hpre, if_true, if_neg hlen, hdrop, splitFirst_append _ _ hcol, hat]
+
+/-- hence the gate of the lock's own name is signalled at the right per-key channel -/
+theorem signal_keyname (p n : List Char) (i total : Nat) (hi : i < total) :
+    KeyName.signal p n total (KeyName.keyname p i n) = .gate i := by
+  simp [KeyName.signal, parseKey_keyname, hi]
+
+/-- a parser that splits at EVERY colon and insists on two parts drops the push for a name with a
+colon: `job:42` -/
+example : KeyName.splitFirst "0:job:42".toList = some ("0".toList, "job:42".toList) := by decide
+
 /-! ### 7. waiters of ONE Locker under NoLoopTracking: the wake-up CAN be lost
 
 `waiter_not_lost` above is about waiters whose connection is told about every write of the key
